@@ -295,7 +295,29 @@ func checkC16(c *Case, s *Stats) error {
 	}
 	if c.Scrib == 1 && len(idx) > 0 {
 		// history: the array object first held other content and is then re-initialised
-		first, _ := buildArray(kind, []int32{0, 3, 64, 65, 200, 4000}, []uint64{1, 2, 3, 4, 5, 6})
+		// earlier content: drawn indexes (from c.Probe) spread over the words the new content may skip
+		seen := map[int32]bool{0: true, 3: true, 64: true, 65: true, 200: true, 4000: true}
+		for _, p := range c.Probe {
+			seen[p%8192] = true
+			seen[(p>>3)%512] = true
+		}
+		var fidx []int32
+		for k := range seen {
+			fidx = append(fidx, k)
+		}
+		for i := 1; i < len(fidx); i++ {
+			for j := i; j > 0 && fidx[j-1] > fidx[j]; j-- {
+				fidx[j-1], fidx[j] = fidx[j], fidx[j-1]
+			}
+		}
+		fraws := make([]uint64, len(fidx))
+		for i := range fraws {
+			fraws[i] = 0x1111111111111111 * uint64(i+1)
+		}
+		first, ferr := buildArray(kind, fidx, fraws)
+		if ferr != nil || first == nil {
+			return fmt.Errorf("harness: cannot build the earlier content: %v", ferr)
+		}
 		var e error
 		err := guard("Init on an array that already holds other content", func() error {
 			switch a := first.msg.(type) {
